@@ -52,6 +52,7 @@ GPG_STATES = [
     ("hdr_upper", "invalid"),
     ("hdr_odd", "invalid"),
     ("hdr_empty", "invalid"),
+    ("hugehdr_garbage_sig", "invalid"),
     ("none", "invalid"),
     ("bare_string", "invalid"),
     ("len_plus", "invalid"),
@@ -73,7 +74,7 @@ def _hdr(rng, style="gnupg"):
     if style == "gnupg":
         return openpgp.gnupg_style_header(_fp(rng), rng.randrange(2**32))
     if style == "long":
-        n = rng.choice([255, 256, 257, 1000, 65535, 65536])
+        n = rng.choice([255, 256, 257, 1000, 65535, 65536, 65541, 65542, 70000, 131072])
         return rng.getrandbits(8 * n).to_bytes(n, "big")
     n = rng.choice([1, 2, 3, 34, 35, 70])
     return rng.getrandbits(8 * n).to_bytes(n, "big")
@@ -205,6 +206,10 @@ def make_gpg(state, key, data, rng):
     if state == "hdr_empty":
         e = openpgp.make_entry(seed, data, b"")
         return e  # well-formedness requires a non-empty hex string
+    if state == "hugehdr_garbage_sig":
+        # well-formed entry, arbitrary signature value, header longer than any OpenPGP hashed area can be
+        n = rng.choice([65541, 65542, 65600, 100000])
+        return {"other_headers": (rng.randbytes(64) * (n // 64 + 1))[:n].hex(), "signature": "%0128x" % rng.getrandbits(512)}
     if state == "none":
         return None
     if state == "bare_string":
